@@ -28,9 +28,11 @@ type C14Case struct {
 
 func init() { register("C14", checkC14) }
 
-const c14Prefix = "ab"
+// c14Prefixes: two-letter beginnings of the generated names; several are keywords or start keywords
+var c14Prefixes = []string{"ab", "in", "or", "do", "if", "no", "an", "en", "fu", "lo", "re", "wh", "tr", "ni", "fo", "el", "th", "un", "br", "go"}
 
 func genC14(t *rapid.T) C14Case {
+	c14Prefix := rapid.SampledFrom(c14Prefixes).Draw(t, "prefix")
 	n := rapid.IntRange(1, 2).Draw(t, "nfiles")
 	var toksPerFile [][]luagen.Tok
 	for i := 0; i < n; i++ {
@@ -39,7 +41,7 @@ func genC14(t *rapid.T) C14Case {
 		cfg.Methods = true
 		cfg.Goto = true
 		cfg.Prefix = fmt.Sprintf("%s%d", c14Prefix, i)
-		cfg.Globals = []string{"abG1", "abG2", "abgfun", "Gother"}
+		cfg.Globals = []string{c14Prefix + "G1", c14Prefix + "G2", c14Prefix + "gfun", "Gother"}
 		cfg.Builtins = builtinNames
 		cfg.MaxStats = 12
 		cfg.GQualified = true // some globals are defined / read as _G.name
@@ -58,7 +60,7 @@ func genC14(t *rapid.T) C14Case {
 	bounds = append(bounds, len(toks))
 	plant := func(at int) ([]luagen.Tok, int) {
 		ins := []luagen.Tok{{Text: "local", Var: luagen.VarNone, NL: true, Indent: 1, SelfOf: -1}, {Text: "zq", Var: luagen.VarNone, SelfOf: -1},
-			{Text: "=", Var: luagen.VarNone, SelfOf: -1}, {Text: c14Prefix, Var: luagen.VarNone, SelfOf: -1}}
+			{Text: "=", Var: luagen.VarNone, SelfOf: -1}, {Text: c14Prefix + "q", Var: luagen.VarNone, SelfOf: -1}}
 		out := append([]luagen.Tok{}, toks[:at]...)
 		out = append(out, ins...)
 		if at < len(toks) {
@@ -78,7 +80,7 @@ func genC14(t *rapid.T) C14Case {
 	}
 	replace := func(at int) ([]luagen.Tok, int) {
 		out := append([]luagen.Tok{}, toks...)
-		out[at].Text = c14Prefix
+		out[at].Text = c14Prefix + "q"
 		out[at].Var = luagen.VarNone
 		return out, at
 	}
